@@ -22,14 +22,18 @@ def deployment(inst, dep, algo="dsa", style=0):
     """style 1: agent names that sort before '__hosting__' (upper case) and hosting costs drawn from the same values as the
     route costs (1, 2, 5), so that "host here" and "forward to a neighbour" tie in the uniform-cost search"""
     dcop, doms = build_dcop(inst)
-    names = [("A%d" if style else "a%d") % i for i in range(1, dep["nag"] + 1)]
+    names = [("A%d" if style == 1 else "a%d") % i for i in range(1, dep["nag"] + 1)]
     comps = list(inst["vars"])
     for i, a in enumerate(names):
         routes = {names[j]: dep["route"][i][j] for j in range(len(names)) if j != i}
         hosting = {comps[c]: dep["hosting"][i][c] for c in range(len(comps)) if dep["hosting"][i][c]}
-        if style:
+        if style == 1:
             hosting = {comps[c]: {0: 1, 3: 2, 8: 5}[dep["hosting"][i][c]] for c in range(len(comps))}
-        dcop._agents_def[a] = AgentDef(a, capacity=100 if style else dep["cap"][i], default_route=1, routes=routes, default_hosting_cost=0, hosting_costs=hosting)
+        if style == 2:
+            # decimal costs (0.1, 0.2, 0.5 / 0.3, 0.7): sums of such floats are not exact, the search's budget arithmetic must cope
+            routes = {k: x / 10 for k, x in routes.items()}
+            hosting = {comps[c]: {0: 0.1, 3: 0.3, 8: 0.7}[dep["hosting"][i][c]] for c in range(len(comps))}
+        dcop._agents_def[a] = AgentDef(a, capacity=100 if style else dep["cap"][i],  default_route=1, routes=routes, default_hosting_cost=0, hosting_costs=hosting)
     mapping = {a: [] for a in names}
     place = dep["place"]
     if style and len(comps) >= len(names):
@@ -83,9 +87,9 @@ def run(tier):
             v.add_tlc(dres, "deployments (Gen_C25, %d agents, %d computations)" % (nag, nc))
             for dep in deps:
                 for rep in range(2 if quick else 6):       # several interleavings of the agents' loop iterations
-                    style = rep % 2
+                    style = rep % 2 if len(recs) % 5 else 2
                     # (the tie-heavy style is about the replica count: it needs k >= 2 and more candidates than replicas)
-                    d2 = dict(dep, k=min(max(dep["k"], 2), nag - 2)) if style and nag >= 4 else dep
+                    d2 = dict(dep, k=min(max(dep["k"], 2), nag - 2)) if style == 1 and nag >= 4 else dep
                     rec, m = one_run(len(recs), inst, d2, r.randrange(10 ** 6), style=style)
                     meta[rec["id"]] = m
                     recs.append(rec)
@@ -105,7 +109,7 @@ def run(tier):
             v.sample({"shape": m["shape"], "caps": rec["cap"], "k": rec["k"], "footprints": rec["fp"], "hosts": rec["hosts"], "accepts": len(rec["accepts"])}, cap=3)
     v.cov["exhaustive"] = False
     v.cov["rule"] = ("DCOPs over 9 shapes (3-5 computations, DSA computations with their real footprints) deployed on 3-4 (quick) / 3-6 agents with TLC-drawn "
-                     "capacities {3,4,6,9,100} (DSA footprints are 1-4), symmetric route costs {1,2,5}, hosting costs {0,3,8} with lower-case agent names or - every other run - {1,2,5} (ties with the route costs), ample capacities and upper-case names (which sort before the search's own '__hosting__' node), placements and k in 1..3; 2 (quick) / 6 seeded interleavings of agent "
+                     "capacities {3,4,6,9,100} (DSA footprints are 1-4), symmetric route costs {1,2,5}, hosting costs {0,3,8} with lower-case agent names or - every other run - {1,2,5} (ties with the route costs), ample capacities and upper-case names, or - one run in five - decimal costs (0.1 .. 0.7) (which sort before the search's own '__hosting__' node), placements and k in 1..3; 2 (quick) / 6 seeded interleavings of agent "
                      "loop iterations per deployment; non-trivial = at least one replica was accepted")
     v.cov["trusted_base"] = ["TLC (Replication.tla)", "vlib/orchrt.py + vlib/agentrt.py", "the acceptance recorder wrapped around UCSReplication._accept_replica"]
     v.assumptions = ["route tables are symmetric (the YAML format enforces it; the UCS budget arithmetic assumes it)",
